@@ -69,23 +69,23 @@ func (f *loopStore) List(ctx context.Context, prefix string) (simpleblob.BlobLis
 
 type loopInst struct {
 	implInst
-	fs        *loopStore
-	r         *receiver.Receiver
-	cancel    context.CancelFunc
-	ctx       context.Context
-	started   bool
-	exited    bool
-	exitStr   string
-	yieldCh   chan string
-	releaseCh chan struct{}
-	exitCh    chan error
-	at        string
-	delivery  string // observed in the current segment: "inst@symts"
-	ownAtStart bool  // snapshots under this instance's own name existed when the loop started
-	cfgArgs   []string
-	bgListed  bool
-	lsTxnID   uint64 // id Lightning Stream's latest own transaction was opened with
-	echo      bool // a Store without a preceding application change or start-up (C10)
+	fs          *loopStore
+	r           *receiver.Receiver
+	cancel      context.CancelFunc
+	ctx         context.Context
+	started     bool
+	exited      bool
+	exitStr     string
+	yieldCh     chan string
+	releaseCh   chan struct{}
+	exitCh      chan error
+	at          string
+	delivery    string // observed in the current segment: "inst@symts"
+	ownAtStart  bool   // snapshots under this instance's own name existed when the loop started
+	cfgArgs     []string
+	bgListed    bool
+	lsTxnID     uint64               // id Lightning Stream's latest own transaction was opened with
+	echo        bool                 // a Store without a preceding application change or start-up (C10)
 	startNewest map[string]time.Time // newest snapshot per other instance when the loop started (C16 run-once)
 }
 
